@@ -109,6 +109,36 @@ Example c07_served_when_unforged :
 Proof. exact served_when_unforged. Qed.
 Print Assumptions c07_served_when_unforged.
 
+(* the five crash / leak defects are confined to their input classes: for any variant with
+   the repairs F26 F71 F72 (base_fixed), every history all of whose operations are [benign]
+   in the state they meet (destination token present or F05; description with nodes or F06
+   and roster members with keys or F70; roster request with no requested-not-received tree
+   or F07; roster message with something pending or F08) is safe *)
+Theorem c07_safe_outside_defect_classes : forall fx ops s,
+  base_fixed fx -> Inv s -> benign_hist fx s ops ->
+  Forall (fun r => r_out r = Ok /\ leaked (r_state r) = [] /\ disciplined (r_events r) = true)
+         (trace fx s ops) /\
+  Inv (run fx s ops).
+Proof. exact trace_safe_gen. Qed.
+Print Assumptions c07_safe_outside_defect_classes.
+
+Theorem c07_crash_defects_confined : forall ops s,
+  Inv s -> benign_hist crash_unfixed s ops ->
+  Forall (fun r => r_out r = Ok /\ leaked (r_state r) = [] /\ disciplined (r_events r) = true)
+         (trace crash_unfixed s ops) /\
+  Inv (run crash_unfixed s ops).
+Proof. exact crash_defects_confined. Qed.
+Print Assumptions c07_crash_defects_confined.
+
+Example c07_benign_hist_satisfiable :
+  benign_hist crash_unfixed init
+    [LocalTree (mkTree 1 (mkRo 1 [mkMem 1 true; mkMem 4 true; mkMem 2 true]) (TM 1 1 [TM 4 4 []; TM 2 2 []]));
+     Recv 1 false false (MProto (Some (mkTok 1 1 1 0 90 1)) (Some (mkTok 1 1 1 0 90 4)) BPing);
+     Recv 3 false false (MReqRoster 1);
+     Recv 3 false false (MRespTree (Some (mkTMar 2 1 [TM 1 1 []])) (Some (mkRo 1 [mkMem 1 true])))].
+Proof. exact benign_hist_satisfiable. Qed.
+Print Assumptions c07_benign_hist_satisfiable.
+
 (* the code without one repair: a witness history each *)
 Theorem c07_f05_refuted :
   exists ops, In (Crashed CNilTo) (outs (only 5) ops) /\ ~ In (Crashed CNilTo) (outs all_fixed ops).
